@@ -253,6 +253,10 @@ impl Exec {
     Self::from_parts(cfg, env, idx)
   }
 
+  pub fn from_parts_pub(cfg: &Config, env: Env, idx: Index) -> Exec {
+    Self::from_parts(cfg, env, idx)
+  }
+
   fn from_parts(cfg: &Config, env: Env, idx: Index) -> Exec {
     Exec {
       cfg: cfg.clone(),
